@@ -135,6 +135,7 @@ impl Aml for Path {
                 sink.byte(DUALNAMEPREFIX);
             }
             n => {
+                assert!(n <= 255, "Name cannot have more than 255 segments");
                 sink.byte(MULTINAMEPREFIX);
                 sink.byte(n as u8);
             }
